@@ -29,6 +29,7 @@ RULE += ' Spike-id and channel-id arrays of every integer dtype (uint8..uint64, 
 RULE += ' Round 5: row tables that list every spike grouped by template or a subset in arbitrary order; stored spikes whose values are all NaN; sparse templates whose column table is as wide as the feature store.'
 RULE += ' Round 6: stores of 8-12 spikes per template and 3 channels per spike for the PCA route (requests mix spikes with and without waveform); NaN / inf template features; a stored NaN comes back as NaN.'
 RULE += ' Round 7: requests in which exactly two spikes have a waveform (leading component = direction of their difference).'
+RULE += ' Round 8: feature datasets with templates that own no spike.'
 EXHAUSTIVE = {'quick': False, 'thorough': False}
 FLOORS = {'quick': {'evaluations': 20000, 'distinct_nontrivial': 8000,
                     'monitors': {'M2.from_sparse.checked': 12000}},
